@@ -545,7 +545,14 @@ fn perform_trials(
             }
             eval.try_image(image.clone());
             if let Some(result) = eval.get_best_candidate() {
-                eval_result = Some(result);
+                // The size limit given to the evaluator applies to the IDAT data alone, so a trial
+                // may complete and still be larger overall than the result we already have
+                if eval_result
+                    .as_ref()
+                    .map_or(true, |prev| result.cmp_key() < prev.cmp_key())
+                {
+                    eval_result = Some(result);
+                }
             }
             #[cfg(feature = "verif")]
             crate::verif::emit(|| crate::verif::Event::CollectedFast {
